@@ -1,4 +1,389 @@
-/- helper lemmas for C04 (Head) -/
+/- helper lemmas for C04 (Head): the client parser run on a printed status line / header block -/
 import TinyHttpModel.RespSpec
+import TinyHttpModel.Lemmas.Digits
 namespace TH
+open Client
+
+/-! ### line splitting -/
+
+theorem splitLF_append_h (l r : Bytes) (h : 10 ∉ l) :
+    splitLF (l ++ 10 :: r) = some (l, r) := by
+  induction l with
+  | nil => simp [splitLF]
+  | cons b bs ih =>
+    have hb : b ≠ 10 := by intro e; apply h; simp [e]
+    have hbs : 10 ∉ bs := by intro e; apply h; simp [e]
+    simp [splitLF, hb, ih hbs]
+
+theorem stripCR_append_cr (l : Bytes) : stripCR (l ++ [13]) = l := by
+  induction l with
+  | nil => simp [stripCR]
+  | cons b bs ih =>
+    cases hbs : bs ++ [13] with
+    | nil => simp at hbs
+    | cons x xs =>
+      rw [hbs] at ih
+      simp [hbs, stripCR, ih]
+
+/-- a CRLF-terminated line without LF is split off exactly. -/
+theorem splitLine_crlf_h (l r : Bytes) (h : 10 ∉ l) :
+    splitLine (l ++ 13 :: 10 :: r) = some (l, r) := by
+  have h' : 10 ∉ l ++ [13] := by simp [h]
+  have e : l ++ 13 :: 10 :: r = (l ++ [13]) ++ 10 :: r := by simp
+  rw [e]
+  simp only [splitLine, splitLF_append_h _ _ h', stripCR_append_cr]
+
+theorem splitFirst_append (c : Nat) (l r : Bytes) (h : c ∉ l) :
+    splitFirst c (l ++ c :: r) = (l, some r) := by
+  induction l with
+  | nil => simp [splitFirst]
+  | cons b bs ih =>
+    have hb : b ≠ c := by intro e; apply h; simp [e]
+    have hbs : c ∉ bs := by intro e; apply h; simp [e]
+    simp [splitFirst, hb, ih hbs]
+
+theorem splitFirst_fst_append (c : Nat) (l r : Bytes) (h : c ∉ l) :
+    (splitFirst c (l ++ c :: r)).1 = l := by
+  rw [splitFirst_append c l r h]
+
+/-! ### optional whitespace -/
+
+theorem trimOwsStart_id_h (l : Bytes) (h : ∀ b ∈ l, isOws b = false) : trimOwsStart l = l := by
+  cases l with
+  | nil => rfl
+  | cons b bs => simp [trimOwsStart, h b (by simp)]
+
+theorem trimOwsEnd_id_h (l : Bytes) (h : ∀ b ∈ l, isOws b = false) : trimOwsEnd l = l := by
+  induction l with
+  | nil => rfl
+  | cons b bs ih =>
+    have hb := h b (by simp)
+    have ih' := ih (fun x hx => h x (by simp [hx]))
+    simp only [trimOwsEnd, ih']
+    cases bs with
+    | nil => simp [hb]
+    | cons x xs => simp
+
+theorem trimOws_id (l : Bytes) (h : ∀ b ∈ l, isOws b = false) : trimOws l = l := by
+  simp [trimOws, trimOwsStart_id_h l h, trimOwsEnd_id_h l h]
+
+theorem trimOws_sp (l : Bytes) (h : ∀ b ∈ l, isOws b = false) : trimOws (32 :: l) = l := by
+  have : trimOwsStart (32 :: l) = trimOwsStart l := by simp [trimOwsStart, isOws]
+  simp [trimOws, this, trimOwsStart_id_h l h, trimOwsEnd_id_h l h]
+
+/-! ### digits -/
+
+theorem not_mem_toDec (n c : Nat) (hc : c < 48 ∨ 57 < c) : c ∉ toDec n := by
+  intro h
+  have := toDec_digits n c h
+  omega
+
+theorem toDec_not_ows (n : Nat) : ∀ b ∈ toDec n, isOws b = false := by
+  intro b hb
+  have := toDec_digits n b hb
+  simp [isOws]
+  omega
+
+/-! ### status line -/
+
+theorem reasonTable_noLF :
+    (Extracted.reasonTable.all (fun e => !e.2.contains 10)) = true := by decide
+
+theorem lookupReason_noLF (s : Nat) (tbl : List (Nat × Bytes))
+    (h : (tbl.all (fun e => !e.2.contains 10)) = true) : 10 ∉ lookupReason s tbl := by
+  induction tbl with
+  | nil => simp [lookupReason, Extracted.reasonDefault]
+  | cons e es ih =>
+    obtain ⟨c, t⟩ := e
+    simp only [List.all_cons, Bool.and_eq_true] at h
+    simp only [lookupReason]
+    split
+    · simpa using h.1
+    · exact ih h.2
+
+theorem reasonPhrase_noLF (s : Nat) : 10 ∉ reasonPhrase s :=
+  lookupReason_noLF s _ reasonTable_noLF
+
+/-- the version token of the status line. -/
+def verTok (ver : Version) : Bytes := b!"HTTP/" ++ toDec ver.major ++ b!"." ++ toDec ver.minor
+
+/-- the status line without its CRLF. -/
+def statusLine (ver : Version) (status : Nat) : Bytes :=
+  verTok ver ++ 32 :: (toDec status ++ 32 :: reasonPhrase status)
+
+theorem not_mem_verTok (ver : Version) (c : Nat) (hc : c < 46 ∨ 84 < c) : c ∉ verTok ver := by
+  have h1 := not_mem_toDec ver.major c (by omega)
+  have h2 := not_mem_toDec ver.minor c (by omega)
+  simp only [verTok, List.mem_append, not_or]
+  refine ⟨⟨⟨?_, h1⟩, ?_⟩, h2⟩
+  · simp; omega
+  · simp; omega
+
+theorem statusLine_noLF (ver : Version) (status : Nat) : 10 ∉ statusLine ver status := by
+  have h1 := not_mem_verTok ver 10 (by omega)
+  have h2 := not_mem_toDec status 10 (by omega)
+  have h3 := reasonPhrase_noLF status
+  simp [statusLine, h1, h2, h3]
+
+theorem parseStatusLine_statusLine (ver : Version) (status : Nat) :
+    parseStatusLine (statusLine ver status) = some (verTok ver, status) := by
+  have h1 := not_mem_verTok ver 32 (by omega)
+  have h2 := not_mem_toDec status 32 (by omega)
+  have hsw : startsWith (verTok ver) b!"HTTP/" = true := by
+    simp [verTok, startsWith]
+  simp only [parseStatusLine, statusLine, splitFirst_append _ _ _ h1, splitFirst_append _ _ _ h2,
+    hsw, ofDec_toDec]
+  rfl
+
+theorem messageHeader_eq (ver : Version) (status : Nat) (hs : List Header) (tail : Bytes) :
+    messageHeader ver status hs ++ tail =
+      statusLine ver status ++ 13 :: 10 :: ((hs.map headerLine).flatten ++ 13 :: 10 :: tail) := by
+  simp [messageHeader, statusLine, verTok, crlf]
+
+/-! ### header block -/
+
+/-- what a header must satisfy for its printed line to parse back. -/
+def lineOk (h : Header) : Prop :=
+  h.name ≠ [] ∧ 58 ∉ h.name ∧ 10 ∉ h.name ∧ 10 ∉ h.value
+
+/-- the header as the client sees it: same name, OWS-trimmed value. -/
+def clientView (h : Header) : Header := ⟨h.name, trimOws (32 :: h.value)⟩
+
+theorem headerLine_eq (h : Header) (tail : Bytes) :
+    headerLine h ++ tail = (h.name ++ 58 :: 32 :: h.value) ++ 13 :: 10 :: tail := by
+  simp [headerLine, crlf]
+
+theorem parseHeaderLine_print (h : Header) (hok : lineOk h) :
+    parseHeaderLine (h.name ++ 58 :: 32 :: h.value) = some (clientView h) := by
+  obtain ⟨hne, h58, _, _⟩ := hok
+  simp only [parseHeaderLine, splitFirst_append _ _ _ h58]
+  cases hn : h.name with
+  | nil => exact absurd hn hne
+  | cons x xs => simp [clientView, hn]
+
+theorem parseHeaders_print (hs : List Header) (hok : ∀ h ∈ hs, lineOk h) :
+    ∀ (fuel : Nat) (tail : Bytes), hs.length < fuel →
+      parseHeaders fuel ((hs.map headerLine).flatten ++ 13 :: 10 :: tail)
+        = some (hs.map clientView, tail) := by
+  induction hs with
+  | nil =>
+    intro fuel tail hf
+    cases fuel with
+    | zero => omega
+    | succ f =>
+      have := splitLine_crlf_h [] tail (by simp)
+      simp only [List.nil_append] at this
+      simp [parseHeaders, this]
+  | cons h hs ih =>
+    intro fuel tail hf
+    cases fuel with
+    | zero => omega
+    | succ f =>
+      have hokh : lineOk h := hok h (by simp)
+      have ih' := ih (fun x hx => hok x (by simp [hx])) f tail (by simpa using hf)
+      have hnoLF : 10 ∉ h.name ++ 58 :: 32 :: h.value := by
+        obtain ⟨_, _, h10, hv⟩ := hokh
+        simp [h10, hv]
+      have hne : (h.name ++ 58 :: 32 :: h.value).isEmpty = false := by simp
+      have e : ((h :: hs).map headerLine).flatten ++ 13 :: 10 :: tail =
+          (h.name ++ 58 :: 32 :: h.value) ++
+            13 :: 10 :: ((hs.map headerLine).flatten ++ 13 :: 10 :: tail) := by
+        simp [headerLine, crlf]
+      rw [e]
+      simp only [parseHeaders, splitLine_crlf_h _ _ hnoLF, hne, parseHeaderLine_print h hokh, ih']
+      simp
+
+theorem clientView_is (h : Header) (n : Bytes) : (clientView h).is n = h.is n := rfl
+
+theorem findHeader_clientView (hs : List Header) (n : Bytes) :
+    findHeader (hs.map clientView) n = (findHeader hs n).map clientView := by
+  induction hs with
+  | nil => rfl
+  | cons h hs ih =>
+    simp only [findHeader, List.map_cons, List.find?_cons, clientView_is] at ih ⊢
+    split <;> simp [ih]
+
+theorem findHeader_append_of_none (a b : List Header) (n : Bytes)
+    (h : ∀ x ∈ a, x.is n = false) : findHeader (a ++ b) n = findHeader b n := by
+  induction a with
+  | nil => rfl
+  | cons x xs ih =>
+    have hx := h x (by simp)
+    have := ih (fun y hy => h y (by simp [hy]))
+    simp only [findHeader, List.cons_append, List.find?_cons, hx] at this ⊢
+    exact this
+
+/-! ### the whole head -/
+
+/-- what `Client.decode` does once status line and header block are parsed. -/
+def decodeBody (isHead : Bool) (v : Bytes) (status : Nat) (hs : List Header) (r1 : Bytes) :
+    Option (Msg × Bytes) :=
+  if noBodyFor isHead status then some (⟨v, status, hs, [], .none⟩, r1)
+  else if hasChunked hs then
+    (dechunk (r1.length + 1) r1).map (fun (p, r) => (⟨v, status, hs, p, .chunked⟩, r))
+  else match findHeader hs b!"Content-Length" with
+    | some h =>
+      match ofDec (trimOws h.value) with
+      | some n =>
+        if r1.length < n then none
+        else some (⟨v, status, hs, r1.take n, .byLength⟩, r1.drop n)
+      | none => none
+    | none => some (⟨v, status, hs, r1, .untilClose⟩, [])
+
+theorem length_le_flatten_headerLines (hs : List Header) :
+    hs.length ≤ (hs.map headerLine).flatten.length := by
+  induction hs with
+  | nil => simp
+  | cons h hs ih =>
+    simp only [List.map_cons, List.flatten_cons, List.length_append, List.length_cons]
+    have : 1 ≤ (headerLine h).length := by simp [headerLine, crlf]; omega
+    omega
+
+theorem decode_messageHeader (isHead : Bool) (ver : Version) (status : Nat) (hs : List Header)
+    (tail : Bytes) (hok : ∀ h ∈ hs, lineOk h) :
+    decode isHead (messageHeader ver status hs ++ tail)
+      = decodeBody isHead (verTok ver) status (hs.map clientView) tail := by
+  have hf : hs.length < ((hs.map headerLine).flatten ++ 13 :: 10 :: tail).length + 1 := by
+    have := length_le_flatten_headerLines hs
+    simp only [List.length_append]
+    omega
+  rw [messageHeader_eq]
+  simp only [decode, splitLine_crlf_h _ _ (statusLine_noLF ver status), parseStatusLine_statusLine,
+    parseHeaders_print hs hok _ _ hf]
+  rfl
+
+theorem noBodyStatus_iff (s : Nat) :
+    Extracted.noBodyStatus s = true ↔ (100 ≤ s ∧ s ≤ 199) ∨ s = 204 ∨ s = 304 := by
+  simp only [Extracted.noBodyStatus, Bool.or_eq_true, Bool.and_eq_true, decide_eq_true_eq]
+  constructor <;> intro h <;> omega
+
+theorem noBodyFor_iff (b : Bool) (s : Nat) :
+    noBodyFor b s = true ↔ b = true ∨ (100 ≤ s ∧ s ≤ 199) ∨ s = 204 ∨ s = 304 := by
+  simp only [noBodyFor, Bool.or_eq_true, Bool.and_eq_true, decide_eq_true_eq, beq_iff_eq]
+  cases b <;> simp <;> omega
+
+theorem noBodyFor_eq (b : Bool) (s : Nat) :
+    noBodyFor b s = (b || Extracted.noBodyStatus s) := by
+  rw [Bool.eq_iff_iff, noBodyFor_iff, Bool.or_eq_true, noBodyStatus_iff]
+
+def teHeader : Header := ⟨b!"Transfer-Encoding", b!"chunked"⟩
+def clHeader (l : Nat) : Header := ⟨b!"Content-Length", toDec l⟩
+
+theorem framingHeader_chunked (len : Option Nat) : framingHeader (some .chunked) len = [teHeader] := rfl
+theorem framingHeader_identity (l : Nat) : framingHeader (some .identity) (some l) = [clHeader l] := rfl
+
+theorem clHeader_is_te (l : Nat) : (clHeader l).is b!"Transfer-Encoding" = false := by
+  simp only [clHeader, Header.is]; decide
+theorem clHeader_is_cl (l : Nat) : (clHeader l).is b!"Content-Length" = true := by
+  simp only [clHeader, Header.is]; decide
+
+/-- the framing header is `Transfer-Encoding: chunked`. -/
+theorem decodeBody_chunked (isHead : Bool) (v : Bytes) (status : Nat) (a : List Header)
+    (tail : Bytes) (ha : ∀ x ∈ a, x.is b!"Transfer-Encoding" = false) :
+    decodeBody isHead v status ((a ++ [teHeader]).map clientView) tail
+      = if noBodyFor isHead status then
+          some (⟨v, status, (a ++ [teHeader]).map clientView, [], .none⟩, tail)
+        else
+          (dechunk (tail.length + 1) tail).map (fun (p, r) =>
+            (⟨v, status, (a ++ [teHeader]).map clientView, p, .chunked⟩, r)) := by
+  have hc : hasChunked ((a ++ [teHeader]).map clientView) = true := by
+    simp only [hasChunked, findHeader_clientView, findHeader_append_of_none _ _ _ ha]
+    decide
+  simp only [decodeBody, hc, if_true]
+
+/-- the framing header is `Content-Length: l`. -/
+theorem decodeBody_identity (isHead : Bool) (v : Bytes) (status : Nat) (a : List Header)
+    (l : Nat) (tail : Bytes)
+    (hte : ∀ x ∈ a, x.is b!"Transfer-Encoding" = false)
+    (hcl : ∀ x ∈ a, x.is b!"Content-Length" = false) :
+    decodeBody isHead v status ((a ++ [clHeader l]).map clientView) tail
+      = if noBodyFor isHead status then
+          some (⟨v, status, (a ++ [clHeader l]).map clientView, [], .none⟩, tail)
+        else if tail.length < l then none
+        else
+          some (⟨v, status, (a ++ [clHeader l]).map clientView, tail.take l, .byLength⟩,
+            tail.drop l) := by
+  have hc : hasChunked ((a ++ [clHeader l]).map clientView) = false := by
+    simp only [hasChunked, findHeader_clientView, findHeader_append_of_none _ _ _ hte]
+    simp [findHeader, clHeader_is_te]
+  have hf : findHeader ((a ++ [clHeader l]).map clientView) b!"Content-Length"
+      = some (clientView (clHeader l)) := by
+    simp only [findHeader_clientView, findHeader_append_of_none _ _ _ hcl]
+    simp [findHeader, clHeader_is_cl]
+  have hv : ofDec (trimOws (clientView (clHeader l)).value) = some l := by
+    simp only [clientView, clHeader, trimOws_sp _ (toDec_not_ows l),
+      trimOws_id _ (toDec_not_ows l), ofDec_toDec]
+  simp only [decodeBody, hc, hf, hv]
+  simp
+
+/-! ### the headers `rawPrint` emits -/
+
+theorem lineOk_of_wf (h : Header) (hw : Spec.wfHeader h = true) : lineOk h := by
+  simp only [Spec.wfHeader, Bool.and_eq_true, Bool.not_eq_true', List.contains_eq_mem,
+    decide_eq_false_iff_not, List.isEmpty_eq_false_iff] at hw
+  exact ⟨hw.1.1.1.1.1, hw.1.1.1.1.2, hw.1.1.1.2, hw.1.2⟩
+
+theorem lineOk_date (date : Bytes) (hd : date.contains 10 = false) : lineOk ⟨b!"Date", date⟩ := by
+  simp only [List.contains_eq_mem, decide_eq_false_iff_not] at hd
+  exact ⟨by simp, by simp, by simp, hd⟩
+
+theorem lineOk_server : lineOk ⟨b!"Server", Extracted.serverName⟩ :=
+  ⟨by simp, by decide, by decide, by decide⟩
+
+theorem lineOk_teHeader : lineOk teHeader := ⟨by simp [teHeader], by decide, by decide, by decide⟩
+
+theorem lineOk_clHeader (l : Nat) : lineOk (clHeader l) :=
+  ⟨by simp [clHeader], by simp [clHeader], by simp [clHeader], not_mem_toDec l 10 (by omega)⟩
+
+theorem insertAuto_none_mem (hs : List Header) (date : Bytes) (x : Header)
+    (hx : x ∈ insertAuto hs date none) :
+    x = ⟨b!"Date", date⟩ ∨ x = ⟨b!"Server", Extracted.serverName⟩ ∨ x ∈ hs := by
+  simp only [insertAuto] at hx
+  split at hx <;> split at hx <;> (try simp only [List.mem_cons] at hx) <;> grind
+
+theorem insertAuto_lineOk (hs : List Header) (date : Bytes) (hd : date.contains 10 = false)
+    (hok : ∀ h ∈ hs, lineOk h) : ∀ h ∈ insertAuto hs date none, lineOk h := by
+  intro h hh
+  rcases insertAuto_none_mem hs date h hh with rfl | rfl | hm
+  · exact lineOk_date date hd
+  · exact lineOk_server
+  · exact hok h hm
+
+theorem insertAuto_not (hs : List Header) (date : Bytes) (n : Bytes)
+    (hd : eqIgnoreCase b!"Date" n = false) (hsv : eqIgnoreCase b!"Server" n = false)
+    (hno : ∀ h ∈ hs, h.is n = false) : ∀ h ∈ insertAuto hs date none, h.is n = false := by
+  intro h hh
+  rcases insertAuto_none_mem hs date h hh with rfl | rfl | hm
+  · exact hd
+  · exact hsv
+  · exact hno h hm
+
+/-- without upgrade the framing is either chunked or identity with the declared (else the
+    actual) length. -/
+theorem framing_cases (r : Resp) (c : ReqCtx) (n : Nat) (te : Option Coding) (len : Option Nat)
+    (hup : c.upgrade = none) (h : framing r c n = some (te, len)) :
+    te = some .chunked ∨ (te = some .identity ∧ len = some (r.dataLength.getD n)) := by
+  simp only [framing, hup] at h
+  split at h
+  · simp at h
+  · rename_i t _
+    simp only [Option.isSome_none, Bool.false_eq_true, if_false, Option.some.injEq,
+      Prod.mk.injEq] at h
+    obtain ⟨rfl, rfl⟩ := h
+    cases t <;> cases r.dataLength <;> simp
+
+/-- the consequences of `wfResp` used below. -/
+theorem wfResp_elim (r : Resp) (n : Nat) (h : Spec.wfResp r n = true) :
+    (∀ x ∈ r.headers, lineOk x) ∧
+    (∀ x ∈ r.headers, x.is b!"Content-Length" = false) ∧
+    (∀ x ∈ r.headers, x.is b!"Transfer-Encoding" = false) ∧
+    r.dataLength.getD n = n := by
+  simp only [Spec.wfResp, Bool.and_eq_true, List.all_eq_true, Spec.isAutoFraming,
+    Bool.not_eq_true', Bool.or_eq_false_iff] at h
+  obtain ⟨⟨h1, h2⟩, h3⟩ := h
+  refine ⟨fun x hx => lineOk_of_wf x (h1 x hx), fun x hx => (h2 x hx).1, fun x hx => (h2 x hx).2, ?_⟩
+  cases hd : r.dataLength with
+  | none => rfl
+  | some l => simpa [hd] using h3
+
 end TH
